@@ -3,6 +3,7 @@ package tree
 import (
 	"context"
 	"math"
+	"slices"
 	"strings"
 	"sync"
 	"time"
@@ -23,7 +24,7 @@ type TreeCacheClient interface {
 	ReadRunningFull(ctx context.Context) ([]*cache.Update, error)
 	GetBranchesHighesPrecedence(ctx context.Context, path []string, filters ...CacheUpdateFilter) int32
 	ReadCurrentUpdatesHighestPriorities(ctx context.Context, ccp PathSlices, count uint64) UpdateSlice
-	IntendedPathExists(ctx context.Context, path []string) (bool, error)
+	IntendedPathExists(ctx context.Context, path []string, ignoreOwners ...string) (bool, error)
 	ReadUpdatesOwner(ctx context.Context, owner string) UpdateSlice
 }
 
@@ -49,7 +50,10 @@ func NewTreeCacheClient(datastore string, cc cache.Client) *TreeCacheClientImpl 
 	}
 }
 
-func (t *TreeCacheClientImpl) IntendedPathExists(ctx context.Context, path []string) (bool, error) {
+// IntendedPathExists tells whether the intended store holds the path. The entries of
+// ignoreOwners do not count: the index reflects the store before the transaction,
+// the owners that give the path up in the transaction are still listed there.
+func (t *TreeCacheClientImpl) IntendedPathExists(ctx context.Context, path []string, ignoreOwners ...string) (bool, error) {
 	t.intendedStoreIndexMutex.RLock()
 	if t.intendedStoreIndex == nil {
 		t.intendedStoreIndexMutex.RUnlock()
@@ -57,8 +61,16 @@ func (t *TreeCacheClientImpl) IntendedPathExists(ctx context.Context, path []str
 		t.intendedStoreIndexMutex.RLock()
 	}
 	defer t.intendedStoreIndexMutex.RUnlock()
-	_, exists := t.intendedStoreIndex[strings.Join(path, KeysIndexSep)]
-	return exists, nil
+	entries, exists := t.intendedStoreIndex[strings.Join(path, KeysIndexSep)]
+	if !exists || len(ignoreOwners) == 0 {
+		return exists, nil
+	}
+	for _, e := range entries {
+		if !slices.Contains(ignoreOwners, e.Owner()) {
+			return true, nil
+		}
+	}
+	return false, nil
 }
 
 func (c *TreeCacheClientImpl) Read(ctx context.Context, opts *cache.Opts, paths [][]string) []*cache.Update {
